@@ -312,7 +312,7 @@ func (s *sim) exec(st *Step) string {
 	// A supplied passphrase that differs from the right one only by what HMAC ignores is not run
 	// through the generated operation (its outcome would move the keybase and the model apart):
 	// a read-only probe decides whether the keybase takes it for the right one.
-	if e.present && !e.damaged && st.Pass != e.pass && hmacEquivalent(pass, passphrases[e.pass]) && st.Op != "decrypt_armor" && st.Op != "import_armor" && st.Op != "coinbase" && st.Op != "set_coinbase" && st.Op != "list" && st.Op != "get" && st.Op != "reopen" && st.Op != "flip" && st.Op != "armor_flip" && st.Op != "create" && st.Op != "import_obj" && st.Op != "unsafe_delete" {
+	if e.present && st.Pass != e.pass && hmacEquivalent(pass, passphrases[e.pass]) && st.Op != "decrypt_armor" && st.Op != "import_armor" && st.Op != "coinbase" && st.Op != "set_coinbase" && st.Op != "list" && st.Op != "get" && st.Op != "reopen" && st.Op != "flip" && st.Op != "armor_flip" && st.Op != "create" && st.Op != "import_obj" && st.Op != "unsafe_delete" {
 		s.res.Probe("hmac_equivalent_passphrase_supplied")
 		if priv, err := kb.ExportPrivateKeyObject(addr, pass); err == nil {
 			raw := priv.PublicKey().RawBytes()
